@@ -17,9 +17,10 @@ func (h h6) Run(env *Env, cfg any) {
 	}
 	stats := env.Sim.Stats()
 	for i, hr := range st.Runs {
-		h1Oracles(env, c, st, hr, i, stats)
-		if c.Input != nil && i == 0 {
-			h6Input(env, c, hr, stats)
+		h1Oracles(env, c.forRun(i), st, hr, i, stats)
+		if c.Input != nil && i == len(st.Runs)-1 && i == max(c.Runs, 1)-1 {
+			// (the input under judgement is the last run's; an earlier run of the process may have used other options)
+			h6Input(env, c.forRun(i), hr, stats)
 		}
 		if c.File != nil && (c.Input == nil || c.Input.WellFormed) {
 			h6File(env, c, hr, i, stats)
